@@ -229,6 +229,21 @@ func runFaults(o opts, out *Output) {
 			}
 			lists = append(lists, fl)
 		}
+		// every payload relabelled to three types drawn from the whole type set of the signal, present in the batch or not
+		// (a related table announced under a type the batch does not otherwise carry)
+		typeSet := map[string][]int32{
+			"traces":  {40, 41, 42, 43, 44, 45, 1, 2},
+			"logs":    {30, 31, 1, 2},
+			"metrics": {10, 11, 12, 13, 14, 15, 16, 17, 18, 19, 20, 21, 22, 23, 24, 1, 2},
+		}[signal]
+		for i := 0; i < np; i++ {
+			for k := 0; k < 3; k++ {
+				ty := typeSet[r.Intn(len(typeSet))]
+				if ty != int32(last.ArrowPayloads[i].Type) {
+					lists = append(lists, []fault{{Kind: "relabel", I: i, Ty: ty}})
+				}
+			}
+		}
 		lists = append(lists, nil) // the unaltered batch
 		for _, fl := range lists {
 			cons := arrow_record.NewConsumer()
